@@ -458,6 +458,49 @@ Proof.
   intros E. discriminate E.
 Qed.
 
+(* ------------------------------------------------------------------ a reused application object *)
+
+Lemma final_app_stopped T rs : proper_table T -> forall j a m n last,
+  c_table (a_crit a) = T -> 0 <= a_rep_count a ->
+  loop rs j a m = Stopped n last ->
+  a_crit (final_app rs a m) = a_crit a /\
+  a_starting_id (final_app rs a m) = last /\
+  1 <= a_rep_count (final_app rs a m).
+Proof.
+  intros HT. pose proof (proper_eqb T HT) as E1.
+  induction rs as [|r rest IH]; intros j a m n last Ha Hc H; [discriminate H|].
+  rewrite (loop_cons_target T) in H by assumption.
+  cbn [final_app]. unfold ensure_progress, stopping_tablename. rewrite Ha, E1.
+  change (start_of (generate_ids m r)) with (start_of m).
+  change (m_last (generate_ids m r)) with (m_last m + r).
+  fold (eff_s a m).
+  destruct (m_last m + r =? eff_s a m) eqn:Es; [discriminate H|].
+  unfold check_finished. cbn [a_crit a_starting_id a_rep_count]. rewrite Ha, E1.
+  rewrite target_id_step. change (m_last (generate_ids m r)) with (m_last m + r).
+  destruct (target_id a m <=? m_last m + r) eqn:Et.
+  - inversion H; subst. cbn [a_crit a_starting_id a_rep_count]. splits; try reflexivity. lia.
+  - apply IH in H; [| cbn [a_crit]; exact Ha | cbn [a_rep_count]; lia].
+    destruct H as (H1 & H2 & H3). cbn [a_crit] in H1. splits; assumption.
+Qed.
+
+(* An application object that already drove a run ending at id [last0] decides the continuation
+   of that run exactly like a new object with the same criterion. *)
+Theorem reused_application_same_as_new : forall T tables N last0 a rs,
+  proper_table T -> a_crit a = mkCrit T N -> a_starting_id a = last0 -> 1 <= a_rep_count a ->
+  run_with tables a (Some last0) rs = run tables (Some (mkCrit T N)) (Some last0) rs.
+Proof.
+  intros T tables N last0 a rs HT Hcrit Hs Hc. pose proof (proper_eqb T HT) as E1.
+  unfold run_with, run, interp_init, stopping_tablename, new_app. rewrite Hcrit. cbn [a_crit c_table].
+  rewrite E1.
+  destruct (negb (existsb (String.eqb T) tables)); [reflexivity|].
+  rewrite (loop_is_tloop T rs HT 0%nat a) by (first [rewrite Hcrit; reflexivity | lia]).
+  rewrite (loop_is_tloop T rs HT 0%nat (mkApp (mkCrit T N) 0 0))
+    by (cbn [a_crit c_table a_rep_count]; first [reflexivity | lia]).
+  unfold eff_s, target_id, start_of. rewrite Hcrit. cbn [a_crit c_count a_rep_count Z.eqb].
+  destruct (a_rep_count a =? 0) eqn:E0; [lia|].
+  cbn [init_idm restored_idm m_start m_last]. f_equal; lia.
+Qed.
+
 (* ------------------------------------------------------------------ infinite sequences *)
 
 Lemma prefix_length r n : length (prefix r n) = n.
